@@ -58,6 +58,8 @@ def worker(chk, pkg, index):
             chk.extra["packages"] = 1
             chk.extra["protocols"] = len(pr.steps)
             return
+        if pkg.namespace.startswith("Vib"):
+            eng.run_custom(shapes.varint_executions(pkg), [[("py", "b2b", 1)], [("py", "b2b", 3), ("cpp", "b2b", 7)], [("cpp", "b2b", 1), ("py", "b2b", 2)], [("py", "b2n", 3), ("py", "n2b", 1)], [("cpp", "b2n", 1), ("py", "n2b", 1)]])
         if pkg.namespace.startswith("Pat"):
             pats = [p.name[1:].upper() for p in pkg.protocols]
             eng.run_custom({"Q" + pt.lower(): shapes.pattern_executions(pt) for pt in pats}, BIN + JSON)
@@ -78,6 +80,7 @@ def main(tier):
     packed.append((shapes.pattern_package(4 if tier == "quick" else 5)[0], []))
     packed.append((shapes.buffer_package()[0], []))
     packed.append((shapes.bigschema_package(), []))
+    packed.append((shapes.varint_package(), []))
     packed += shapes.pack(py_only_shapes(), PY_ONLY)
     chk.extra.update({"shapes": len(sh), "depth": d, "k": 1 if tier == "quick" else 2})
     roundtrip.run_packages(chk, packed, worker)
